@@ -24,7 +24,10 @@ RULE = ("clouds of 6..24 pairwise distinct points (jittered lattice or uniform d
         "decades, 1..12 query points strictly inside the convex hull. Gridders: Spline (undamped / damped / separate forces), "
         "Trend degree 0..3, VectorSpline2D (undamped / damped / as many explicit forces as data points), KNeighbors (k = 1..n; mean, median, min, max), Linear, Cubic, "
         "Chain(Trend, Spline), Chain(Trend, KNeighbors), Vector(Trend, Spline), Vector(KNeighbors, Linear), "
-        "Chain(Vector(Trend, Trend), VectorSpline2D). For each base execution (1-D float64 arrays) a variant: (perm) a random "
+        "Chain(Vector(Trend, Trend), VectorSpline2D), and chains that start with a blocked reduction: BlockMean / BlockReduce (mean, average, "
+        "median, min, max) with center_coordinates True and False, drop_coords both ways, with and without weights, followed by Trend, "
+        "damped Spline or KNeighbors - fitted to a jittered grid in C order (base), randomly permuted and reversed (perm-block); two of "
+        "them also run in every generic stream. For each base execution (1-D float64 arrays) a variant: (perm) a random "
         "permutation of the data points with their data and weights; (layout) every fit / predict array independently as C "
         "reshape, Fortran-ordered copy, strided view of a doubled buffer (1-D and 2-D), reversed view, pandas Series with a "
         "scrambled index, nested lists (weights and query), weights in the data's shape or raveled; (extra) a third, large, "
@@ -162,6 +165,23 @@ def k_vspline_forces(damping=None):
     return f
 
 
+def k_block(final):
+    """conditioning of the step that follows a blocked reduction: evaluated on the reducer's own output"""
+    def f(e, n, w, conf):
+        import verde as vd
+        spec = conf["spec"]
+        red = vd_eval(conf["reducer"])
+        with warnings.catch_warnings():
+            warnings.simplefilter("ignore")
+            out = red.filter((e, n), arr(spec["d"][0]), None if w is None else w[0])
+        bc = tuple(np.asarray(c, dtype=float) for c in out[0][:2])
+        bw = np.asarray(out[2], dtype=float) if len(out) > 2 and out[2] is not None else None
+        if final == "trend":
+            return kappa_ls(vd.Trend(1).jacobian(bc), bw, None)
+        return kappa_ls(vd.Spline().jacobian(bc, bc), bw, 1e-3)
+    return f
+
+
 def k_max(*fs):
     return lambda e, n, w, conf: max(f(e, n, None, conf) for f in fs)
 
@@ -194,6 +214,22 @@ def gridders():
         Gridder("chain-vtrend-vspline", "vd.Chain([('t', vd.Vector([vd.Trend(1), vd.Trend(1)])), ('s', vd.VectorSpline2D(poisson=0.3, mindist=MIND))])",
                 "ls", ncomp=2, kappa=k_max(k_trend(1), k_vspline())),
     ]
+    # chains that start with a blocked reduction (BlockReduce / BlockMean; block centres or reduced coordinates;
+    # drop_coords both ways; several reductions) followed by Trend / Spline / KNeighbors
+    blocks = [
+        ("chain-bm-center-trend", "vd.BlockMean(spacing=BSP, region=BREG, center_coordinates=True)", "vd.Trend(1)", "trend", True, False),
+        ("chain-br-median-center-spline", "vd.BlockReduce(np.median, spacing=BSP, region=BREG, center_coordinates=True)", "vd.Spline(damping=1e-3)", "spline", False, False),
+        ("chain-br-mean-trend", "vd.BlockReduce(np.mean, spacing=BSP, region=BREG, drop_coords=False)", "vd.Trend(1)", "trend", False, True),
+        ("chain-bm-spline", "vd.BlockMean(spacing=BSP, center_coordinates=False, drop_coords=False)", "vd.Spline(damping=1e-3)", "spline", True, False),
+        ("chain-br-max-center-knn", "vd.BlockReduce(np.max, spacing=BSP, region=BREG, center_coordinates=True, drop_coords=False)", "vd.KNeighbors(k=2)", None, False, False),
+        ("chain-bm-center-knn", "vd.BlockMean(spacing=BSP, region=BREG, center_coordinates=True)", "vd.KNeighbors(k=1)", None, True, False),
+        ("chain-br-min-knn", "vd.BlockReduce(np.min, spacing=BSP, center_coordinates=False)", "vd.KNeighbors(k=1)", None, False, False),
+        ("chain-br-mean-center-spline", "vd.BlockReduce(np.average, spacing=BSP, region=BREG, center_coordinates=True)", "vd.Spline(damping=1e-3)", "spline", True, True),
+    ]
+    for name, red, fin, kk, wts, lin in blocks:
+        g.append(Gridder(name, "vd.Chain([('reduce', %s), ('fit', %s)])" % (red, fin), "ls" if kk else "exact", weights=wts, linear=lin,
+                         kappa=k_block(kk) if kk else None, minpts=12))
+        g[-1].reducer = red
     for deg in range(4):
         g.append(Gridder("trend-%d" % deg, "vd.Trend(%d)" % deg, "ls", weights=True, kappa=k_trend(deg),
                          minpts=(deg + 1) * (deg + 2) // 2 + 2, model=("trend", deg)))
@@ -313,6 +349,12 @@ def problem(rnd, g, n=None, m=None, int_coords=False, int_data=False, int_query=
         conf["fe"] = [float(e[i]) for i in p]
         conf["fn"] = [float(nn[i]) for i in p]
         expr = expr.replace("PERMX", repr(conf["fe"])).replace("PERMY", repr(conf["fn"]))
+    if "BSP" in expr:
+        pad = 0.02 * max(float(np.ptp(e)), float(np.ptp(nn)))
+        reg = (float(e.min() - pad), float(e.max() + pad), float(nn.min() - pad), float(nn.max() + pad))
+        sp = max(reg[1] - reg[0], reg[3] - reg[2]) / rnd.choice([2.5, 3.0, 3.0, 4.0])
+        expr = expr.replace("BSP", repr(sp)).replace("BREG", repr(reg))
+        conf["reducer"] = g.reducer.replace("BSP", repr(sp)).replace("BREG", repr(reg))
     if "KNN" in expr:
         conf["k"] = rnd.randint(1, min(n, 6)) if rnd.random() < 0.8 else n
         expr = expr.replace("KNN", str(conf["k"]))
@@ -469,7 +511,7 @@ def tolk(g, spec, variant):
     """(coq tolerance term, kappa or None, skip?)"""
     if g.kind == "exact":
         return "TolExact", None, False
-    kap = g.kappa(arr(spec["e"]), arr(spec["n"]), flat_w(spec), spec["conf"])
+    kap = g.kappa(arr(spec["e"]), arr(spec["n"]), flat_w(spec), dict(spec["conf"], spec=spec))
     if variant and variant.get("same_arithmetic"):
         # a pure re-layout of the same values: no skip, the tolerance uses min(kappa, 1e10) (the unchanged code is bit-identical)
         kap = float(min(kap, KAPPA_MAX))
@@ -788,6 +830,10 @@ ALL = ["spline", "spline-damped", "spline-forces", "spline-nforces", "spline-nfo
        "vspline", "vspline-damped", "vspline-nforces-damped", "vspline-shuffled-forces", "linear", "linear-rescale", "cubic",
        "chain-trend-spline", "chain-trend-knn", "vector-trend-spline", "vector-knn-linear", "chain-vtrend-vspline",
        "trend-0", "trend-1", "trend-2", "trend-3", "knn-mean", "knn-median", "knn-min", "knn-max"]
+BLOCK_ALL = ["chain-bm-center-trend", "chain-br-median-center-spline"]      # these two also run in every generic stream
+BLOCK_CHAINS = ["chain-bm-center-trend", "chain-br-median-center-spline", "chain-br-mean-trend", "chain-bm-spline",
+                "chain-br-max-center-knn", "chain-bm-center-knn", "chain-br-min-knn", "chain-br-mean-center-spline"]
+ALL = ALL + BLOCK_ALL
 SMALL_VEC = {"vspline", "vspline-damped", "chain-vtrend-vspline", "vspline-nforces-damped", "vspline-shuffled-forces"}
 
 
@@ -836,6 +882,21 @@ def generate(tier, seed):
             # integer lattice clouds tie for k-d tree queries only at lattice queries: the query stays non-integer here
             spec = problem(rnd, g, n=npts(rnd, name), int_coords="coords" in what, int_data="data" in what)
             cases.append(pair_case(g, spec, v_dtype(rnd, what, j + rep), "dtype-fit/" + name))
+        # chains starting with a blocked reduction: the same points in C-grid order (base), permuted and reversed
+        for gi, name in enumerate(BLOCK_CHAINS):
+            g = GRIDDERS[name]
+            for t in range(2):
+                for _ in range(20):
+                    spec, (r, c), _q = lines_problem(rnd, g, [0, 1, 2, 0][(gi + rep + t) % 4] + 7 * rnd.randrange(4) + 7 * 10 * 0)
+                    if r * c >= 12:
+                        break
+                if g.weights and (gi + rep + t) % 2 == 0:
+                    spec["w"] = [c2.tolist() for c2 in make_weights(rnd, r * c, 1)]
+                n = r * c
+                cases.append(pair_case(g, spec, v_perm(rnd, spec), "perm-block/" + name))
+                cases.append(pair_case(g, spec, {"perm": list(range(n))[::-1]}, "perm-block-reversed/" + name))
+            if g.linear:
+                cases.append(linear_case(rnd, g, share=gi + rep))
         # the same points as 3-D / 4-D arrays (every gridder): fit arguments, query, both
         for gi, name in enumerate(ALL):
             g = GRIDDERS[name]
@@ -878,6 +939,9 @@ def generate(tier, seed):
             v = {"dtype": {"d": "float32"}}
             if name.startswith("knn-") or name == "vector-knn-linear":   # (in Chain(Trend, KNeighbors) the neighbours see float64 residuals)
                 v["reduction_in_float32"] = True
+            if name in BLOCK_CHAINS:
+                # pandas reduces a float32 column in float32: the blocked values carry a float32 rounding (measured <= 1.5e-7 x kappa)
+                v["float32_arithmetic"] = True
             cases.append(pair_case(g, spec, v, "dtype-data-float32/" + name))
             # float32 COORDINATES (an extra: the property speaks of integer dtypes).  The values are float32-representable
             # and the base stores the SAME values as float64; verde then evaluates coordinate differences / powers in
